@@ -68,7 +68,13 @@ pub fn run_job(j: usize) -> String {
             Err(es) => {
                 // render the diagnostics the way the CLI does (takes the file cache lock)
                 mimium_lang::utils::error::report(&src, "/verif-input.mmm".into(), &es);
-                format!("wasm-diagnostics {:?}", errs_to_strings(&es))
+                // the labels (file, span, text) are part of what the job obtains
+                let labels: Vec<String> = es
+                    .iter()
+                    .flat_map(|e| catch(|| e.get_labels()).unwrap_or_default())
+                    .map(|(l, m)| format!("{}:{}..{} {m}", l.path.display(), l.span.start, l.span.end))
+                    .collect();
+                format!("wasm-diagnostics {:?} labels {labels:?}", errs_to_strings(&es))
             }
         };
         format!("{vm} | {wasm}")
@@ -345,6 +351,7 @@ impl Prop for C19 {
         let stride = stride_for(tier, ja, jb);
         let mut fails: Vec<Fail> = vec![];
         let mut schedules = 0u64;
+        let mut bound2 = 0u64;
         let mut transitions = 0u64;
         let mut outcomes_seen: std::collections::BTreeSet<String> = Default::default();
         let mut check = |plan: Vec<(usize, u64)>, first: usize, fails: &mut Vec<Fail>| {
@@ -385,14 +392,21 @@ impl Prop for C19 {
             let mut p = lo;
             while p < hi {
                 let r = check(vec![(pt, p)], pt, &mut fails);
-                // bound 2 (thorough, short jobs): after the switch, preempt the other thread too, at a sparse set of its points
-                if tier == Tier::Thorough && s[ja].1.max(s[jb].1) < 3000 && p % 16 == 1 {
+                // bound 2 (short jobs): after the switch, preempt the other thread too, at a sparse set of its points -
+                // the first thread then runs to its end before the second one resumes (A starts, B runs a part, A
+                // finishes, B finishes). Thorough: every 16th first point x every 97th second point; quick: every
+                // 8th explored first point x 24 second points.
+                let short = s[ja].1.max(s[jb].1) < 8000;
+                let first_selected = if tier == Tier::Thorough { p % 16 == 1 } else { ((p - 1) / stride) % 8 == 0 };
+                if short && first_selected {
                     let other = 1 - pt;
                     let n_other = r.points[other];
+                    let qstep = if tier == Tier::Thorough { 97 } else { (n_other / 24).max(97) };
                     let mut q = 1;
                     while q <= n_other {
                         check(vec![(pt, p), (other, q)], pt, &mut fails);
-                        q += 97;
+                        bound2 += 1;
+                        q += qstep;
                     }
                 }
                 p += stride;
@@ -410,7 +424,7 @@ impl Prop for C19 {
             fails,
             tags: vec![format!("jobs:{}+{}", JOB_NAMES[ja], JOB_NAMES[jb])],
             repr: json!({"jobs": [JOB_NAMES[ja], JOB_NAMES[jb]], "preempted_thread": pt, "points": [lo, hi], "solo_points": [s[ja].1, s[jb].1]}),
-            counters: vec![("states".into(), schedules), ("transitions".into(), transitions), ("traces".into(), schedules), (format!("bound_{}", if pt == 2 { 0 } else { 1 }), schedules)],
+            counters: vec![("states".into(), schedules), ("transitions".into(), transitions), ("traces".into(), schedules), (format!("bound_{}", if pt == 2 { 0 } else { 1 }), schedules - bound2), ("bound_2".into(), bound2)],
         }
     }
     fn min_outcomes(&self) -> usize {
@@ -427,7 +441,7 @@ impl Prop for C19 {
         let s = solo();
         Descr {
             rule: format!(
-                "K = 2 threads each run one job 'compile with ExecContext + run 4 samples on the VM + emit WASM (+ render diagnostics)' from a menu of {NJOBS} sources built to collide (identical sources, shared identifiers, a syntax error, a type error, a macro program (stage-0 VM + MIMIUM_CURRENT_MACRO_FILE), a 64 KiB identifier that forces the interner buffer to grow, types/enums/builtins, two macro programs whose main-stage code goes through the staging translation with a nested resp. flat tuple let, a program that imports library modules from files (`use osc::sinwave`, `use math::*`, found through MIMIUM_LIB_PATH = the repository's lib directory), two programs that `include` the same file, which in turn includes a 40-function file); job pairs: {:?}. Scheduling points measured per job (solo): {:?}. A hand-rolled baton scheduler lets a thread lose control only at a scheduling point placed before every with_session_globals / env-var / file-cache access. Explored: bound 0 (both serial orders); bound 1: one preemption at every {}scheduling point of either thread; thorough additionally bound 2 on jobs under 3000 points (second preemption at every 97th point of the other thread, for every 16th first point). Each schedule: both jobs' observations must equal their solo observations; a silent partner for 20 s is a deadlock. states/traces = schedules executed; transitions = scheduling points passed.",
+                "K = 2 threads each run one job 'compile with ExecContext + run 4 samples on the VM + emit WASM (+ render diagnostics)' from a menu of {NJOBS} sources built to collide (identical sources, shared identifiers, a syntax error, a type error, a macro program (stage-0 VM + MIMIUM_CURRENT_MACRO_FILE), a 64 KiB identifier that forces the interner buffer to grow, types/enums/builtins, two macro programs whose main-stage code goes through the staging translation with a nested resp. flat tuple let, a program that imports library modules from files (`use osc::sinwave`, `use math::*`, found through MIMIUM_LIB_PATH = the repository's lib directory), two programs that `include` the same file, which in turn includes a 40-function file); job pairs: {:?}. Scheduling points measured per job (solo): {:?}. A hand-rolled baton scheduler lets a thread lose control only at a scheduling point placed before every with_session_globals / env-var / file-cache access. Explored: bound 0 (both serial orders); bound 1: one preemption at every {}scheduling point of either thread; bound 2 on job pairs under 8000 points each (the first thread is preempted, the second runs a part, the first finishes, the second finishes): thorough at every 97th point of the second thread for every 16th first point, quick at 24 points of the second thread for every 8th explored first point. Each schedule: both jobs' observations must equal their solo observations; a silent partner for 20 s is a deadlock. states/traces = schedules executed; transitions = scheduling points passed.",
                 pairs(tier).iter().map(|(a, b)| format!("{}+{}", JOB_NAMES[*a], JOB_NAMES[*b])).collect::<Vec<_>>(),
                 s.iter().map(|x| x.1).collect::<Vec<_>>(),
                 if tier == Tier::Quick { "s-th (s = 16, or more for long jobs so that a pair has at most ~2400 schedules; per-pair values in bounds.stride_per_pair) " } else { "" }
